@@ -71,7 +71,14 @@ namespace RecInt
         }
 
         // Cast
-        template <typename T> operator T() const { return static_cast<T>(Value); }
+        template <typename T> operator T() const { return cast_to<T>(std::is_floating_point<T>()); }
+    private:
+        // integral targets: the low bits of the two's-complement image
+        template <typename T> T cast_to(std::false_type) const { return static_cast<T>(Value); }
+        // floating-point targets: sign and magnitude
+        template <typename T> T cast_to(std::true_type) const
+        { return isNegative() ? -static_cast<T>(-Value) : static_cast<T>(Value); }
+    public:
 
         // Quick sign evaluation
         // *this < 0
